@@ -92,11 +92,14 @@ def cases(tier, seed):
         for vs in itertools.product(*[range(len(KEYS[k])) for k in prefix_keys]):
             for route in ('response', 'register'):
                 out.append({'k': 'chunk', 'p': list(vs), 'route': route})
-    kinds = ['A', 'B', 'C', 'U', 'V', 'N']  # U: unknown stage; V: a metric whose type is a number this client does not know (open enum);
+    kinds = ['A', 'B', 'C', 'U', 'V', 'N', 'X', 'Y']  # X / Y: a method tracepoint for a function called '<line of A>' / 'method@<line of A>' (there is none: it never acts, and is no line tracepoint); U: unknown stage; V: a metric whose type is a number this client does not know (open enum);
     #                                         N: a method tracepoint without a name, given by the same line as A and B
     for n in (1, 2, 3):
         for lst in itertools.product(kinds, repeat=n):
             out.append({'k': 'list', 'l': list(lst)})
+    for ln in ('text', 'none', 'fraction', 'list', 'float'):
+        for form in ('line', 'nameless-method', 'method-stage'):
+            out.append({'k': 'badline', 'line': ln, 'form': form})
     return out
 
 
@@ -302,6 +305,10 @@ def check_list(ctx, desc):
             args['stage'] = 'bogus'
         if kind == 'N':
             args['stage'] = 'method_start'
+        if kind == 'X':
+            args['method_name'] = str(L1)
+        if kind == 'Y':
+            args['method_name'] = 'method@%d' % L1
         pb = PB(ID='tp%d' % n, path='c11prog.py', line_number=line, args=args, watches=['v + %d' % n])
         if kind == 'V':
             from deepproto.proto.tracepoint.v1.tracepoint_pb2 import Metric
@@ -326,13 +333,13 @@ def check_list(ctx, desc):
                  for p in per for s in p['snaps'])
     exp = []
     for n, kind in enumerate(lst):
-        if kind in 'UV':
+        if kind in 'UVXY':
             continue
         nh = 1 if kind == 'B' else 2
         where = ('call', 'M') if kind == 'N' else ('line', L2 if kind == 'C' else L1)      # each acts at its own kind of location
         exp += [('tp%d' % n, ('v + %d' % n,), '[deep] L%d' % n, where)] * nh
     exp.sort()
-    if len(set(lst) - {'U', 'V'}) >= 1 and len(lst) >= 2:
+    if len(set(lst) - {'U', 'V', 'X', 'Y'}) >= 1 and len(lst) >= 2:
         ctx.nt(('list', tuple(lst)))
     ctx.outcome(('list', len(got)))
     if got != exp:
@@ -343,9 +350,51 @@ def check_list(ctx, desc):
         ctx.sample({'response_list': lst, 'snapshots': [list(map(str, g)) for g in got]})
 
 
+BADLINES = {'text': str(L1), 'none': None, 'fraction': L1 + 0.5, 'list': [L1], 'float': float(L1)}
+
+
+def check_badline(ctx, desc):
+    """register_tracepoint with a line that is no whole number, next to two valid tracepoints (a named method tracepoint, a line
+    tracepoint): it is refused (ValueError) or understood; either way the valid ones go on acting - it 'affects only itself'."""
+    from deep.api.tracepoint.trigger import build_trigger
+    line, form = BADLINES[desc['line']], desc['form']
+    agent = rig.Agent()
+    good = [build_trigger('good-m', 'c11prog.py', 0, {'fire_count': '-1', 'fire_period': '0', 'method_name': 'M', 'log_msg': 'gm'}, [], []),
+            build_trigger('good-l', 'c11prog.py', L2, {'fire_count': '-1', 'fire_period': '0', 'log_msg': 'gl'}, [], [])]
+    args = {'fire_count': '-1', 'fire_period': '0', 'log_msg': 'odd'}
+    if form == 'nameless-method':
+        args['span'] = 'method'
+    elif form == 'method-stage':
+        args['stage'] = 'method_start'
+    ctx.case()
+    ctx.nt(('badline', desc['line'], form))
+    refused = None
+    try:
+        odd = build_trigger('odd', 'c11prog.py', line, args, [], [])
+        triggers = good + ([odd] if odd is not None else [])
+    except ValueError as e:
+        refused, triggers = e, good
+    except BaseException as e:
+        ctx.violation('C11/badline/registration-raised/' + type(e).__name__, f'line {line!r} ({form}): build_trigger raised {e!r} (ValueError is how an uninterpretable tracepoint is refused)', desc)
+        return
+    agent.install(triggers)
+    per, run = observe(agent)
+    ctx.outcome(('badline', desc['line'], form, refused is not None))
+    if run.escaped or run.exc is not None:
+        ctx.violation('C11/badline/handler-raised', f'line {line!r} ({form}): {run.escaped[:1] or run.exc!r}', desc)
+        return
+    got = sorted(s.tracepoint.id for p_ in per for s in p_['snaps'])
+    want_good = ['good-l', 'good-l', 'good-m', 'good-m']
+    if [g for g in got if g.startswith('good')] != want_good:
+        ctx.violation('C11/badline/valid-tracepoints-affected', f'a tracepoint registered with line {line!r} ({form}; {"refused" if refused else "accepted"}) next to a named method '
+                      f'tracepoint and a line tracepoint: these acted {[g for g in got if g.startswith("good")]}, expected {want_good}', desc)
+
+
 def run_case(ctx, desc):
     if desc['k'] == 'list':
         return check_list(ctx, desc)
+    if desc['k'] == 'badline':
+        return check_badline(ctx, desc)
     if desc['k'] == 'one':
         d = combo_dict(desc['c'])
         if len(ctx.samples) < 2 and d['span'] and d['log_msg']:
